@@ -215,7 +215,7 @@ func runC11(c *core.Ctx) {
 		called := map[*ssa.Function]bool{}
 		for _, m := range r.methods {
 			for _, ci := range core.Calls(m) {
-				if cf := ci.Common().StaticCallee(); cf != nil && e.isMethodOf(r, cf) {
+				if cf := c04Callee(ci); cf != nil && e.isMethodOf(r, cf) {
 					called[cf] = true
 				}
 			}
@@ -310,7 +310,7 @@ func runC11(c *core.Ctx) {
 					}
 				}
 			case ssa.CallInstruction:
-				cf := x.Common().StaticCallee()
+				cf := c04Callee(x)
 				switch {
 				case cf == e.addChild:
 					if c04IsLoadOf(x.Common().Args[0], r.cur) && mode == mElem {
